@@ -26,6 +26,8 @@ pub enum X {
     Let(Vec<(String, X)>, Box<X>),
     Index(Box<X>, Box<X>),
     TupAt(Box<X>, i64),
+    /// `.name` on any expression (native objects)
+    Member(Box<X>, &'static str),
     Call(&'static str, Vec<X>),
     Tmpl(Vec<X>),
 }
@@ -60,6 +62,7 @@ pub fn show(x: &X) -> String {
         ),
         X::Index(a, i) => format!("{}[{}]", show(a), show(i)),
         X::TupAt(a, i) => format!("{}.{}", show(a), i),
+        X::Member(a, n) => format!("{}.{}", show(a), n),
         X::Call(f, args) => format!("{}({})", f, args.iter().map(show).collect::<Vec<_>>().join(",")),
         X::Tmpl(parts) => format!("`{}`", parts.iter().map(|p| format!("${{{}}}", show(p))).collect::<Vec<_>>().join("")),
     }
@@ -132,6 +135,7 @@ pub fn to_value(x: &X) -> Value {
         }
         X::Index(a, i) => Index::make_call(to_value(a), to_value(i)).into(),
         X::TupAt(a, i) => Access::make_call(to_value(a), Value::Integer(*i)).into(),
+        X::Member(a, n) => Access::make_call(to_value(a), Value::Identifier(n.to_string())).into(),
         X::Call(f, args) => {
             let mut v = vec![id(f)];
             v.extend(args.iter().map(to_value));
@@ -289,6 +293,7 @@ fn ref_type(x: &X, scope: &Vec<(String, Option<T>)>) -> Result<T, ()> {
                 _ => return Err(()),
             }
         }
+        X::Member(..) => return Err(()),
         X::TupAt(a, i) => match ref_type(a, scope)?.real() {
             Tup(ts) => {
                 if *i >= 0 && (*i as usize) < ts.len() {
@@ -333,6 +338,7 @@ fn certain(x: &X) -> bool {
         X::If(c, y, n) => certain(c) && certain(y) && certain(n),
         X::Index(a, i) => certain(a) && certain(i),
         X::TupAt(a, _) => certain(a),
+        X::Member(..) => false,
         X::Call(_, args) => args.iter().all(certain),
         X::Tmpl(p) => p.iter().all(certain),
     }
@@ -598,6 +604,7 @@ fn ref_eval(x: &X, env: &ContextProps, scope: &Vec<(String, X, usize)>) -> Resul
                 None => return Err(D::Unspecified),
             }
         }
+        X::Member(..) => return Err(D::Unspecified),
         X::TupAt(a, i) => match resolve_agg(a, env, scope)? {
             Some((items, isc)) if *i >= 0 && (*i as usize) < items.len() => {
                 strict_members(&items, env, &isc)?;
@@ -756,7 +763,7 @@ fn uses_request(x: &X) -> bool {
         X::Req(_) => true,
         X::Int(_) | X::Bool(_) | X::Str(_) | X::Var(_) => false,
         X::Arr(a) | X::Tup(a) | X::Tmpl(a) => a.iter().any(uses_request),
-        X::Un(_, a) | X::TupAt(a, _) => uses_request(a),
+        X::Un(_, a) | X::TupAt(a, _) | X::Member(a, _) => uses_request(a),
         X::Bin(_, a, b) | X::Index(a, b) => uses_request(a) || uses_request(b),
         X::If(c, y, n) => uses_request(c) || uses_request(y) || uses_request(n),
         X::Let(bs, b) => bs.iter().any(|(_, v)| uses_request(v)) || uses_request(b),
@@ -945,7 +952,7 @@ impl<'a> Runner<'a> {
 fn innermost_illtyped(x: &X) -> &X {
     let kids: Vec<&X> = match x {
         X::Arr(a) | X::Tup(a) | X::Tmpl(a) => a.iter().collect(),
-        X::Un(_, a) | X::TupAt(a, _) => vec![&**a],
+        X::Un(_, a) | X::TupAt(a, _) | X::Member(a, _) => vec![&**a],
         X::Bin(_, a, b) | X::Index(a, b) => vec![&**a, &**b],
         X::If(c, y, n) => vec![&**c, &**y, &**n],
         X::Call(_, args) => args.iter().collect(),
@@ -967,6 +974,7 @@ fn top_op(x: &X) -> String {
         X::Let(..) => "let".into(),
         X::Index(..) => "index".into(),
         X::TupAt(..) => "tuple-access".into(),
+        X::Member(..) => "member".into(),
         X::Call(f, _) => f.to_string(),
         X::Tmpl(_) => "template".into(),
         X::Arr(_) => "array".into(),
@@ -1221,7 +1229,7 @@ pub fn branch_family(mut emit: impl FnMut(X)) {
     let bx = |x: X| Box::new(x);
     let s = |t: &str| X::Str(t.to_string());
     let let1 = |n: &str, val: X, body: X| X::Let(vec![(n.to_string(), val)], Box::new(body));
-    let lits = [X::Int(1), s("s"), X::Bool(true), X::Tup(vec![X::Int(1)]), X::Arr(vec![X::Int(1)])];
+    let lits = [X::Int(1), s("s"), X::Bool(true), X::Tup(vec![X::Int(1)]), X::Arr(vec![X::Int(1)]), X::Req("request.target"), X::Req("request.source"), X::Req("request.target.host")];
     let shapes = |l: &X| -> Vec<X> {
         vec![
             l.clone(),
@@ -1250,14 +1258,19 @@ pub fn branch_family(mut emit: impl FnMut(X)) {
         Box::new(|e| X::Index(Box::new(e), Box::new(X::Int(0)))),
         Box::new(|e| X::Un("!", Box::new(e))),
         Box::new(|e| X::Let(vec![("r".to_string(), e)], Box::new(X::Bin("+", Box::new(X::Var("r".into())), Box::new(X::Int(1)))))),
+        Box::new(|e| X::Bin("==", Box::new(X::Member(Box::new(e), "host")), Box::new(X::Str("a".into())))),
+        Box::new(|e| X::Bin("==", Box::new(X::Member(Box::new(e), "port")), Box::new(X::Int(80)))),
     ];
     for l1 in &lits {
         for l2 in &lits {
             let (s1, s2) = (shapes(l1), shapes(l2));
-            for (a, b) in s1.iter().zip(s2.iter()) {
-                for c in &conds {
-                    for k in &consumers {
-                        emit(k(X::If(bx(c.clone()), bx(a.clone()), bx(b.clone()))));
+            // every shape against every shape: a plain value in one branch, a binding in the other, ...
+            for a in s1.iter() {
+                for b in s2.iter() {
+                    for c in &conds {
+                        for k in &consumers {
+                            emit(k(X::If(bx(c.clone()), bx(a.clone()), bx(b.clone()))));
+                        }
                     }
                 }
             }
@@ -1403,7 +1416,7 @@ fn check() {
         "exhaustive": true,
         "states": runner.outcomes.len(), "transitions": evals + trees, "traces_validated_against_impl": trees,
         "evaluations": trees, "distinct_nontrivial": accepted,
-        "rule": "all trees with one operator node over the leaf set (depth 1, exhaustive); all trees with one operator node over leaves + one representative depth-1 tree per (static type, outcome vector) class (depth 2); thorough adds a depth-3 slice; every library function with 0-3 arguments over 7 atoms; wide arrays: all 3-member array literals over 12 atoms, indexed once / twice / by a request-dependent index and used in comparisons, membership and strcat; scoping family: 4 literals x 10 aggregate shapes mentioning a let-bound name x 16 uses x {plain, aggregate leaves the name's scope, sibling binding, name re-bound to each of 4 literals (nested / same let)}; branch family: conditionals whose branches have the same let structure over 5 x 5 literal types x 10 shapes x 4 conditions x 12 consumers. non-trivial = accepted by the real checker (then evaluated under up to 6 request environments). states = distinct (static type, per-environment outcome) vectors",
+        "rule": "all trees with one operator node over the leaf set (depth 1, exhaustive); all trees with one operator node over leaves + one representative depth-1 tree per (static type, outcome vector) class (depth 2); thorough adds a depth-3 slice; every library function with 0-3 arguments over 7 atoms; wide arrays: all 3-member array literals over 12 atoms, indexed once / twice / by a request-dependent index and used in comparisons, membership and strcat; scoping family: 4 literals x 10 aggregate shapes mentioning a let-bound name x 16 uses x {plain, aggregate leaves the name's scope, sibling binding, name re-bound to each of 4 literals (nested / same let)}; branch family: conditionals whose branches have the same let structure over 8 x 8 leaves (5 literal types, request.target, request.source, request.target.host) x 10 x 10 shapes x 4 conditions x 14 consumers (incl. member access). non-trivial = accepted by the real checker (then evaluated under up to 6 request environments). states = distinct (static type, per-environment outcome) vectors",
         "trees": trees, "accepted_by_checker": accepted, "rejected_by_checker": runner.rejected.load(Ordering::Relaxed),
         "evaluations_run": evals, "compared_with_reference_value": runner.ref_compared.load(Ordering::Relaxed),
         "leaves": leaves.len(), "depth1": d1.len(), "depth2_atoms": atoms2.len(), "depth2": d2.len(), "depth3": d3n, "arity_family": af.len(), "wide_arrays": wf.len(), "wide_arrays_accepted": wf_accepted, "scoping_family": sf.len(), "scoping_family_accepted": sf_accepted, "branch_family": bf.len(), "branch_family_accepted": bf_accepted,
